@@ -11,7 +11,15 @@ CFG = dict(
           "chains with damaged members, every key form x every label, every pair of key objects for PublicKeysEqual; aeskw Wrap/Unwrap and PKCS#7 for "
           "every length 0..64 (x key sizes, x block sizes -1..300 and extremes, x tail bytes); the four aescbcaead variants with arbitrary, genuine-edited and "
           "forged-with-the-key ciphertexts of every body length (16-byte nonce only); all crypto entry points x every algorithm name and 40 undefined names x "
-          "keys of every type x ciphertext/nonce/tag lengths 0..64; enc/v1 Decrypt on reference documents with edited manifests under a valid MAC, structural "
+          "keys of every type x ciphertext/nonce/tag lengths 0..64; SEQUENCES of 2-6 calls executed back to back in one process (whatever an entry point keeps "
+          "between calls - a buffer pool, a cached cipher, a scratch slice sized by the previous message - is part of what the next input meets): each step "
+          "names an entry point group {crypto.Encrypt/Decrypt and EncryptSymmetric/DecryptSymmetric for every symmetric name, EncryptPublicKey/"
+          "DecryptPrivateKey, SignPrivateKey/VerifyPublicKey, aeskw, PKCS#7, aescbcaead Seal/Open incl. forged bodies, ParseKey + use}, an algorithm, a size "
+          "(0..300, or 2^e + {-17,-16,-15,-1,0,1,15,16,17} for e in {12..16,20}: 4 KiB, 8 KiB, 64 KiB, 1 MiB and their neighbours, or anything up to 70 000) "
+          "and how the decrypted message relates to the encrypted one {genuine, tampered, shortened, extended, tag length changed, nonce length changed, "
+          "arbitrary bytes of that size}; two in three steps stay on the entry point and algorithm of the step before; plus a deterministic grid: every ordered "
+          "pair of sizes from {16, 4 KiB, 8 KiB-16, 8 KiB, 8 KiB+16, 64 KiB-1, 64 KiB, 64 KiB+1} and 1 MiB with 2-4 partners (small then large, large then small, "
+          "equal) for every algorithm / primitive parameter (quick tier: every 4th-5th pair for AES key wrap, RSA, signatures, PKCS#7, ParseKey); enc/v1 Decrypt on reference documents with edited manifests under a valid MAC, structural "
           "header damage up to and beyond 64 KiB, byte edits, every unwrap outcome, scripted read chunking, Encrypt with any options, Manifest/Cipher/"
           "KeyAlgorithm JSON; metadata.DecodeMetadata from 13 container kinds into a struct with every supported field type (each field x each listed value), "
           "GetMetadataProperty, Duration JSON/ToISOString, ByteSize; config.Decode/Normalize/PrefixedBy on JSON- and YAML-shaped trees; utils.IsValidPEM and "
@@ -27,15 +35,17 @@ CFG = dict(
                   "class is left to the rapid property",
                   "the harness is built with go1.26.8: panics that only an older standard library would raise are not seen",
                   "rapid v1.3.0, Go's native fuzzing engine and the Go runtime are correct"],
-     technique="property-based testing (rapid generators of structured near-valid inputs, exhaustive length/field grids) + coverage-guided native fuzzing "
-               "(go test -fuzz, 13 targets, thorough tier) with the oracle inside every target",
+     technique="property-based testing (rapid generators of structured near-valid inputs and of multi-call scripts, exhaustive length/field grids, ordered "
+               "size-pair grids) + coverage-guided native fuzzing (go test -fuzz, 14 targets, thorough tier) with the oracle inside every target",
      level_text="Generated-input search: every case calls the real entry point and the only oracle is the one the statement gives: the call returns (a value, an "
                 "error or a boolean) instead of panicking, and returns within a deadline. Errors are the expected outcome for malformed input and are never "
                 "judged. Exhaustive for the named finite sub-spaces (lengths 0..64 of wrapped keys, paddings, forged ciphertext bodies, nonces/tags per "
                 "algorithm; all runes); sampled elsewhere. The quick tier runs the generators at a fixed seed and replays the fuzz seeds; the thorough tier adds "
                 "16-worker fuzzing campaigns per target. No absence claim.",
      level_note="Trusts the Go runtime's panic/recover, rapid and the fuzzing engine. Panics inside goroutines started by the code under test (enc/v1 stream "
-                "processing) cannot be recovered and terminate the test process: they are still reported as violations (process crash), without a shrunk case.",
+                "processing) cannot be recovered and terminate the test process: they are still reported as violations (process crash), without a shrunk case. The multi-call scripts do not reset what dapr/kit keeps between calls (it offers no way to, and a real "
+                "process never does): a failure there may depend on the calls of earlier cases of the same process, so its shrunk case can be reported by rapid "
+                "as not reproducible in isolation; the size-pair grid gives a self-contained two-call case for the same defect.",
      timeout_quick=600, timeout_thorough=3000,
      shards_thorough=8,
      fuzz=[
@@ -46,6 +56,7 @@ CFG = dict(
          dict(target="FuzzKeyWrapPadding", seconds=15),
          dict(target="FuzzAESCBCAEAD", seconds=20),
          dict(target="FuzzCryptoAlgorithms", seconds=40),
+         dict(target="FuzzCryptoSequences", seconds=30),
          dict(target="FuzzEncDecrypt", seconds=50),
          dict(target="FuzzEncJSON", seconds=15),
          dict(target="FuzzMetadata", seconds=50),
